@@ -19,17 +19,24 @@ NOOPT = -1
 OK_OPS = ["addone", "helmert x=1 y=2 z=3", "geo:in | utm zone=32", "noop",      # shape.opx (1-based)
           # operations with a domain limit (family F): the library returns NaN for, and does not count, a tuple
           # too far from the central meridian (both directions) / outside the projection disc (inverse)
-          "geo:in | tmerc lon_0=9", "laea lat_0=52 lon_0=10"]
+          "geo:in | tmerc lon_0=9", "laea lat_0=52 lon_0=10",
+          # family H: reports (does not count) a tuple with a NaN among its first three elements, in both directions
+          "cart"]
+CART = 7
 BAD_OPS = ["no_such_operator", "utm", "addone | helmert x=foo"]
 # Units of the last printed place a token may be away from the library's in-process value.  kp and the
 # harness are two builds of the library (different optimisation levels): operations made of additions of
 # exactly representable numbers must agree to the digit (0.5: correctly rounded, ties either way); for
 # the projection a difference in the last bits of the two builds must not raise an alarm.
-SLACK = [0.5, 0.5, 2.5, 0.5, 2.5, 2.5]
+SLACK = [0.5, 0.5, 2.5, 0.5, 2.5, 2.5, 2.5]
+MAXCOLS = 9                        # Kp.tla: MaxCols
 ZVAL, TVAL = "7.5", "2020.25"      # the -z / -t values
 DECO = {"blank": "", "ws": "  \t ", "comment": "# a comment 1 2 3", "icomment": "   # indented 4 5 6"}
 TAIL = " # trailing 7 8 9"
-ACTIONS = ["Instantiate", "BadOperation", "OpenFile", "OpenFails", "SkipLine", "ReadCoord", "EndOfFile",
+NL = {"lf": "\n", "crlf": "\r\n", "cr": "\r"}
+# item.sep: (before the first column, between two columns, after the last column)
+SEP = {"sp": ("", " ", ""), "tab": ("", "\t", ""), "multi": ("  ", " \t  ", " \t")}
+ACTIONS = ["Instantiate", "BadOperation", "OpenFile", "OpenFails", "ForeignLineEnds", "SkipLine", "ReadCoord", "EndOfFile",
            "EndOfInput", "Transform", "RefuseRoundtrip", "Format"]
 KP_TIMEOUT = 300
 WORKERS = 4
@@ -44,13 +51,18 @@ class Gen:
 
     decimal notation: c1 = 40 + n/4096, c2 = 5 + (7n mod 1000)/128, c3 = +-(100 + (n mod 500)/4),
     c4 = 2000 + (n mod 40)/8 (text = Python repr; its value = float(text)).
-    sexagesimal notation: c1, c2 taken from the specification's table (text and exact value), c3, c4 as above."""
+    sexagesimal notation: c1, c2 taken from the specification's table (text and exact value), c3, c4 as above.
+    "rad" / "xyz": the numbers given to `cart` (forward: longitude and latitude in radians, height; inverse:
+    geocentric X, Y, Z of points near the surface) - decimal notation, other magnitudes.
+    surplus columns c5.. (every number set): (n + e) mod 17 + e/4."""
+
+    SETS = ("dec", "sexa", "rad", "xyz")
 
     def __init__(self, sexa):
         self.sexa = [(x["txt"], repr(float(Fraction(x["n128"], 128)))) for x in sexa]
         self.n = 0
-        self.txt = {"dec": [[None], [None], [None], [None]], "sexa": [[None], [None], [None], [None]]}
-        self.val = {"dec": [[None], [None], [None], [None]], "sexa": [[None], [None], [None], [None]]}
+        self.txt = {k: [[None] for _ in range(MAXCOLS)] for k in self.SETS}
+        self.val = {k: [[None] for _ in range(MAXCOLS)] for k in self.SETS}
         self.joined = {}
         # lines outside the domain of the family F operations, by the direction applied first:
         # "fwd": latitude just off the equator, 90 degrees from the central meridian (tmerc easting unbounded);
@@ -65,15 +77,21 @@ class Gen:
         for n in range(self.n + 1, nmax + 1):
             c = [repr(40 + n / 4096), repr(5 + ((7 * n) % 1000) / 128),
                  repr((100 + (n % 500) / 4) * (-1 if n % 3 == 0 else 1)), repr(2000 + (n % 40) / 8)]
-            for e in range(4):
+            c += [repr((n + e) % 17 + e / 4) for e in range(4, MAXCOLS)]
+            s1, s2 = self.sexa[n % T], self.sexa[(7 * n + 3) % T]
+            st = [s1[0], s2[0]] + c[2:]
+            sv = [s1[1], s2[1]] + [repr(float(x)) for x in c[2:]]
+            rad = [repr(0.125 + (n % 1000) / 8192), repr(0.75 + ((7 * n) % 1000) / 8192)] + c[2:]
+            xyz = [repr(3500000 + (n % 4000) / 4), repr(800000 + ((7 * n) % 1000) / 8), repr(5000000 + (n % 500) / 4)] + c[3:]
+            for e in range(MAXCOLS):
                 self.txt["dec"][e].append(c[e])
                 self.val["dec"][e].append(repr(float(c[e])))
-            s1, s2 = self.sexa[n % T], self.sexa[(7 * n + 3) % T]
-            st = [s1[0], s2[0], c[2], c[3]]
-            sv = [s1[1], s2[1], repr(float(c[2])), repr(float(c[3]))]
-            for e in range(4):
                 self.txt["sexa"][e].append(st[e])
                 self.val["sexa"][e].append(sv[e])
+                self.txt["rad"][e].append(rad[e])
+                self.val["rad"][e].append(repr(float(rad[e])))
+                self.txt["xyz"][e].append(xyz[e])
+                self.val["xyz"][e].append(repr(float(xyz[e])))
             ff = {"fwd": [repr((1 + n % 64) / 1024), "99", c[2], c[3]],
                   "inv": [repr(30000000 + n % 1000), repr(1000 + (n % 500) / 4), c[2], c[3]]}
             for k, toks in ff.items():
@@ -83,15 +101,21 @@ class Gen:
         self.n = nmax
         self.joined = {}
 
-    def fail_text(self, first, c, n):
-        return " ".join(self.ftxt[first][e][n] for e in range(c))
+    def fail_text(self, kind, c, n, sep="sp"):
+        """a line the library fails on: kind "fwd" / "inv" (outside the domain in that direction), "nan" (NaN in every column)"""
+        a, b, z = SEP[sep]
+        return a + b.join("NaN" if kind == "nan" else self.ftxt[kind][e][n] for e in range(c)) + z
 
-    def text(self, form, c):
+    def fail_val(self, kind, e, n):
+        return "NaN" if kind == "nan" else self.fval[kind][e][n]
+
+    def text(self, form, c, sep="sp"):
         """list indexed by n of the line text with c columns"""
-        k = (form, c)
+        k = (form, c, sep)
         if k not in self.joined:
             cols = self.txt[form][:c]
-            self.joined[k] = [None] + [" ".join(t) for t in zip(*[x[1:] for x in cols])]
+            a, b, z = SEP[sep]
+            self.joined[k] = [None] + [a + b.join(t) + z for t in zip(*[x[1:] for x in cols])]
         return self.joined[k]
 
 
@@ -119,27 +143,47 @@ def fail_offsets(it, m):
             "some": range(0, m, 4)}[f]
 
 
+def period(it):
+    """Kp.tla ColsAt: cols 0 - copy j (1-based) has ((j-1) % 4) + 1 columns, cols 10 - ((j-1) % 7) + 1 columns"""
+    return {0: 4, 10: 7}.get(it["cols"])
+
+
 def cols_at(it, j0):
-    return it["cols"] if it["cols"] != 0 else (j0 % 4) + 1
+    p = period(it)
+    return it["cols"] if p is None else (j0 % p) + 1
 
 
 def first_dir(shape):
     return "fwd" if shape["mode"] in ("fwd", "rt_fwd_inv") else "inv"
 
 
-def item_text(gen, it, n0, m, first="fwd"):
+def numset(shape, it):
+    """which of the generator's number sets the lines of an item are taken from: the item's notation, or, for
+    `cart`, numbers that make sense to it in the direction applied first"""
+    if shape["op"] == "ok" and shape["opx"] == CART:
+        return "rad" if first_dir(shape) == "fwd" else "xyz"
+    return it["form"]
+
+
+def fail_kind(shape, it):
+    """the text of a failing line: NaN in every column (fk both), or outside the domain in the direction applied first"""
+    return "nan" if it.get("fk", "dom") == "both" else first_dir(shape)
+
+
+def item_text(gen, it, n0, m, shape):
     """the m lines of coordinate item `it`, the first being coordinate line n0"""
-    if it["cols"] != 0:
-        lines = gen.text(it["form"], it["cols"])[n0:n0 + m]
+    ns, sep, p = numset(shape, it), it.get("sep", "sp"), period(it)
+    if p is None:
+        lines = gen.text(ns, it["cols"], sep)[n0:n0 + m]
     else:
         lines = [None] * m
-        for k in range(4):              # copy j (1-based) has ((j-1) % 4) + 1 columns
-            lines[k::4] = gen.text(it["form"], k + 1)[n0 + k:n0 + m:4]
+        for k in range(p):
+            lines[k::p] = gen.text(ns, k + 1, sep)[n0 + k:n0 + m:p]
     fo = fail_offsets(it, m)
     if len(fo):
         lines = list(lines)
         for j in fo:
-            lines[j] = gen.fail_text(first, cols_at(it, j), n0 + j)
+            lines[j] = gen.fail_text(fail_kind(shape, it), cols_at(it, j), n0 + j, sep)
     if it["tail"]:
         lines = [s + TAIL for s in lines]
     return lines
@@ -150,8 +194,11 @@ def _tuple_lines(gen, form, c, rule, ns):
     cols, mask = [], ""
     for e in range(4):
         r = rule[e]
-        if r == "col":
+        if r == "col" or (r == "open" and e < c):
+            # "open" (surplus columns: the tuple is not specified): any number will do, the element is not compared
             cols.append(gen.val[form][e][ns.start:ns.stop:ns.step])
+        elif r == "open":
+            cols.append(["0"] * len(ns))
         elif r == "zero":
             cols.append(["0"] * len(ns))
         elif r == "nan":
@@ -162,22 +209,24 @@ def _tuple_lines(gen, form, c, rule, ns):
             cols.append([TVAL] * len(ns))
         else:
             raise vlib.ToolError("unknown element rule " + r)
-        mask += "0" if r.endswith("_or_col") else "1"
+        mask += "0" if (r.endswith("_or_col") or r == "open") else "1"
     return ["%s %s %s %s %s" % (a, b, x, y, mask) for a, b, x, y in zip(*cols)]
 
 
-def item_tuples(gen, it, n0, m, rules, first="fwd"):
-    if it["cols"] != 0:
-        lines = _tuple_lines(gen, it["form"], it["cols"], rules[it["cols"] - 1], range(n0, n0 + m))
+def item_tuples(gen, it, n0, m, shape):
+    rules, ns, p = shape["rules"], numset(shape, it), period(it)
+    if p is None:
+        lines = _tuple_lines(gen, ns, it["cols"], rules[it["cols"] - 1], range(n0, n0 + m))
     else:
         lines = [None] * m
-        for k in range(4):
-            lines[k::4] = _tuple_lines(gen, it["form"], k + 1, rules[k], range(n0 + k, n0 + m, 4))
+        for k in range(p):
+            lines[k::p] = _tuple_lines(gen, ns, k + 1, rules[k], range(n0 + k, n0 + m, p))
+    kind = fail_kind(shape, it)
     for j in fail_offsets(it, m):
-        # same rules, the columns being those of the out-of-domain line
+        # same rules, the columns being those of the failing line
         old = lines[j].split()
         rule = rules[cols_at(it, j) - 1]
-        lines[j] = " ".join([gen.fval[first][e][n0 + j] if rule[e] == "col" else old[e] for e in range(4)] + [old[4]])
+        lines[j] = " ".join([gen.fail_val(kind, e, n0 + j) if rule[e] == "col" else old[e] for e in range(4)] + [old[4]])
     return lines
 
 
@@ -230,7 +279,7 @@ def _run_shape(shape, key, d, gen, kp, gvh, corrupt):
     where = {}
     fileargs, stdin_path = [], None
     ncoord_items = 0
-    nfail = 0
+    nfail = nfail2 = 0
     for f, fl in enumerate(shape["files"], 1):
         if fl["src"] == "missing":
             fileargs.append(os.path.join(d, "does-not-exist-%d.txt" % f))
@@ -241,16 +290,18 @@ def _run_shape(shape, key, d, gen, kp, gvh, corrupt):
                 m = mult(it)
                 gen.ensure(n + m)
                 where[(f, i)] = (n + 1, m, it)
-                chunks += item_text(gen, it, n + 1, m, first_dir(shape))
+                chunks += item_text(gen, it, n + 1, m, shape)
                 nfail += len(fail_offsets(it, m))
+                nfail2 += len(fail_offsets(it, m)) if it.get("fk", "dom") == "both" else 0
                 n += m
                 ncoord_items += 1
             else:
                 chunks.append(DECO[it["t"]])
-        text = "\n".join(chunks) + ("\n" if (fl["eol"] and chunks) else "")
+        nl = NL[fl.get("nl", "lf")]
+        text = nl.join(chunks) + (nl if (fl["eol"] and chunks) else "")
         path = os.path.join(d, "in%d.txt" % f)
-        with open(path, "w") as fh:
-            fh.write(text)
+        with open(path, "wb") as fh:
+            fh.write(text.encode())
         if fl["src"] == "file":
             fileargs.append(path)
         elif fl["src"] == "dash":
@@ -262,7 +313,7 @@ def _run_shape(shape, key, d, gen, kp, gvh, corrupt):
     tl = []
     for f, i in shape["out"]:
         n0, m, it = where[(f, i)]
-        tl += item_tuples(gen, it, n0, m, shape["rules"], first_dir(shape))
+        tl += item_tuples(gen, it, n0, m, shape)
     n_expected = shape["ones"] + shape["fills"] * (BREAL - 2)
     if shape["status"] == "ok" and (len(tl) != n_expected or n_expected != n):
         raise vlib.ToolError("instantiation disagrees with the specification's line count: %d %d %d" % (len(tl), n_expected, n))
@@ -292,17 +343,32 @@ def _run_shape(shape, key, d, gen, kp, gvh, corrupt):
                 si.close()
     stderr_head = re.sub(r"\(\d+\) ", "", open(err_path, "rb").read(600).decode("utf-8", "replace")).replace(d + os.sep, "")
     stderr_nonempty = os.path.getsize(err_path) > 0
+    cmd_shown = [a.replace(d + os.sep, "") for a in cmd]      # reported without the scratch directory
+    abnormal = rc is not None and (rc == 101 or rc < 0)         # panic, or killed by a signal
+    if shape["compare"] == "nopanic":
+        # Kp.tla ForeignLineEnds: nothing is specified about this input but that the program does not end abnormally
+        fails = []
+        if timed_out:
+            fails.append({"what": "hang", "msg": "kp did not finish within %ds" % KP_TIMEOUT})
+        elif abnormal:
+            fails.append({"what": "abnormal-end", "msg": "kp ended with status %s (panic or signal)" % rc})
+        return {"key": key, "fails": fails, "cmd": cmd_shown,
+                "observed": {"rc": rc, "timeout": timed_out, "stderr_nonempty": stderr_nonempty, "stderr_head": stderr_head,
+                             "stdout_head": open(out_path, "rb").read(300).decode("utf-8", "replace")},
+                "expected": {"status": shape["refstatus"], "lines": None, "compare": "nopanic"},
+                "evaluations": 1, "lines": n, "refused": False, "nfail": 0, "stdout_ok": False}
     # ---- the library
     # Where the specification leaves the end of a --roundtrip run with failing tuples open, an error end
     # (message, non-zero status) is admitted: what was written before must be the first lines of the prediction.
-    refused = bool(shape.get("refusal_open")) and rc not in (0, None) and stderr_nonempty and rc != 101
+    refused = bool(shape.get("refusal_open")) and rc not in (0, None) and stderr_nonempty and not abnormal
     o = shape["opts"]
     job = {"id": key, "def": op_def(shape), "mode": shape["mode"],
            "d": None if o["d"] == NOOPT else o["d"], "D": None if o["D"] == NOOPT else o["D"],
            "tuples": tuples_path if shape["status"] == "ok" else None,
            "observed": out_path, "expected_out": os.path.join(d, "expected.txt"),
            "compare": "prefix" if (refused and shape["compare"] == "numbers") else shape["compare"],
-           "slack": SLACK[shape["opx"] - 1] if shape["op"] == "ok" else 0.5}
+           "slack": SLACK[shape["opx"] - 1] if shape["op"] == "ok" else 0.5,
+           "dclass": shape.get("decimals", "shown")}
     jp, rp = os.path.join(d, "job.ndjson"), os.path.join(d, "result.ndjson")
     with open(jp, "w") as fh:
         fh.write(json.dumps(job) + "\n")
@@ -316,9 +382,17 @@ def _run_shape(shape, key, d, gen, kp, gvh, corrupt):
     if lib["op_ok"] != (shape["op"] == "ok"):
         raise vlib.ToolError("the binding's operation table is stale: %r accepted=%s" % (op_def(shape), lib["op_ok"]))
     # the family must not be vacuous: the library really fails on exactly the lines the specification marks
-    if shape["fam"] == "F" and "successes" in lib and lib["successes"] != n - nfail:
-        raise vlib.ToolError("the library counts %d successes, the specification marks %d of %d lines as failing (%s)"
-                             % (lib["successes"], nfail, n, op_def(shape)))
+    if shape["fam"] in ("F", "H") and "successes" in lib:
+        if lib["successes"] != n - nfail:
+            raise vlib.ToolError("the library counts %d successes, the specification marks %d of %d lines as failing (%s)"
+                                 % (lib["successes"], nfail, n, op_def(shape)))
+        # ... and, under --roundtrip, in the second pass exactly on those marked as failing in both (this is what decides
+        # whether a refusal is admitted)
+        if shape["opts"]["rt"] and lib["successes2"] != n - nfail2:
+            raise vlib.ToolError("the library counts %d successes in the second pass, the specification marks %d of %d lines as "
+                                 "failing there (%s)" % (lib["successes2"], nfail2, n, op_def(shape)))
+    if shape.get("decimals") != "shown" and shape["compare"] == "numbers" and shape["op"] == "ok" and SLACK[shape["opx"] - 1] != 0.5:
+        raise vlib.ToolError("decimals beyond the usual are only compared for operations that are exact in binary64")
     # ---- verdict against the reference prediction
     fails = []
     expected = {"status": shape["refstatus"], "lines": n_expected if shape["refstatus"] == "ok" else None,
@@ -338,11 +412,10 @@ def _run_shape(shape, key, d, gen, kp, gvh, corrupt):
         if lib.get("n_mismatch", 0):
             fails.append({"what": "line-content", "msg": "%d output lines differ from the library's result" % lib["n_mismatch"],
                           "first": lib["mismatches"]})
-        if rc == 101 or (rc != 0 and shape.get("exit_compared", True)):
+        if abnormal or (rc != 0 and shape.get("exit_compared", True)):
             fails.append({"what": "abnormal-end", "msg": "valid input ended with status %s%s" % (
                 rc, " (panic)" if rc == 101 else "")})
-    cmd = [a.replace(d + os.sep, "") for a in cmd]      # reported without the scratch directory
-    return {"key": key, "fails": fails, "cmd": cmd, "observed": observed, "expected": expected,
+    return {"key": key, "fails": fails, "cmd": cmd_shown, "observed": observed, "expected": expected,
             "evaluations": 1 + lib.get("evaluations", 0), "lines": n, "refused": refused, "nfail": nfail,
             "stdout_ok": shape["refstatus"] == "ok" and lib.get("count_ok") and not lib.get("n_mismatch", 0)}
 
@@ -359,7 +432,7 @@ def _work(args):
 # the check
 # --------------------------------------------------------------------------
 
-PRED = ("status", "refstatus", "mode", "ones", "fills", "out", "rules", "compare", "exit_compared", "refusal_open")
+PRED = ("status", "refstatus", "mode", "ones", "fills", "out", "rules", "compare", "decimals", "exit_compared", "refusal_open")
 
 
 def model(res, tier):
@@ -389,8 +462,17 @@ def model(res, tier):
             # the binding's reading of the `fail` patterns, checked against the specification at TLC's B
             mine = sum(len(fail_offsets(it, x["B"] - 2 if it["rep"] == "fill" else 1))
                        for f in x["files"] for it in f["items"] if it["t"] == "c")
-            if mine != x["nfail"]:
+            mine2 = sum(len(fail_offsets(it, x["B"] - 2 if it["rep"] == "fill" else 1))
+                        for f in x["files"] for it in f["items"] if it["t"] == "c" and it["fk"] == "both")
+            if mine != x["nfail"] or mine2 != x["nfail2"]:
                 raise vlib.ToolError("binding and specification disagree on the failing lines of %s" % json.dumps(x)[:300])
+            # ... and of the column mixtures
+            for f in x["files"]:
+                for it in f["items"]:
+                    if it["t"] == "c" and not (it["cols"] in (0, 10) or 1 <= it["cols"] <= MAXCOLS):
+                        raise vlib.ToolError("unknown column pattern %r" % it["cols"])
+            if len(x["rules"]) != MAXCOLS:
+                raise vlib.ToolError("the specification's MaxCols is not the binding's")
         per_cfg.append(main)
         sexa = r["records"]["SEXA"][0]["tab"]
     a, b = per_cfg
@@ -408,10 +490,30 @@ def deviated(tier):
     return {shape_key(x): x["status"] for x in r["records"].get("SHAPE", []) if not x["refused"]}
 
 
+def feature(shape):
+    """the corner of the input space a shape belongs to (part of a violation's signature)"""
+    items = [it for f in shape["files"] for it in f["items"] if it["t"] == "c"]
+    if any(f.get("nl") == "cr" for f in shape["files"]):
+        return "cr-line-ends"
+    if any(it["cols"] > 4 for it in items):
+        return "surplus-columns"
+    if shape.get("decimals") == "beyond":
+        return "decimals-beyond-binary64"
+    if shape["opts"]["d"] > 9:
+        return "many-decimals"
+    if any(it["fail"] != "none" and it["fk"] == "both" for it in items):
+        return "lines-failing-in-both-passes"
+    if any(it["fail"] != "none" for it in items):
+        return "lines-failing-in-one-pass"
+    if any(f.get("nl") == "crlf" for f in shape["files"]) or any(it["sep"] != "sp" for it in items):
+        return "crlf-or-tabs"
+    return "plain"
+
+
 def nontrivial(shape):
     """something other than 'one file of complete decimal tuples in one batch, printed forward'"""
     items = [it for f in shape["files"] for it in f["items"]]
-    return (shape["refstatus"] == "error" or len(shape["files"]) > 1 or shape["mode"] != "fwd"
+    return (shape["refstatus"] != "ok" or len(shape["files"]) > 1 or shape["mode"] != "fwd"
             or any(it["t"] != "c" or it["tail"] or it["form"] == "sexa" or it["cols"] != 4 or it["rep"] == "fill" for it in items)
             or shape["opts"]["z"] or shape["opts"]["t"] or shape["opts"]["D"] not in (4, NOOPT)
             or any(f["src"] != "file" for f in shape["files"]))
@@ -419,6 +521,8 @@ def nontrivial(shape):
 
 def size_class(shape):
     ncoord = shape["ones"] + shape["fills"] * (BREAL - 2)
+    if shape["refstatus"] == "open":
+        return "unspecified-input"
     if shape["refstatus"] != "ok":
         return "error-expected"
     if ncoord == 0:
@@ -445,22 +549,9 @@ def execute(shapes, sexa, keep=False, corrupt=False):
     return results
 
 
-def probe_outside(kp):
-    """More than four columns: outside the property's quantifier (1 to 4 columns), reported, never judged."""
-    obs = []
-    for text in ("1 2 3 4 5\n", "1 2 3 4 5 6\n"):
-        try:
-            p = subprocess.run([kp, "-d", "2", "-D", "4", "addone"], input=text, stdout=subprocess.PIPE, stderr=subprocess.PIPE,
-                               text=True, timeout=60, env=dict(os.environ, RUST_BACKTRACE="0"))
-            obs.append({"input": text.strip(), "rc": p.returncode, "stdout": p.stdout.strip(), "stderr": p.stderr.strip()[:200]})
-        except subprocess.TimeoutExpired:
-            obs.append({"input": text.strip(), "timeout": True})
-    return obs
-
-
 def run(tier, seed):
     res = vlib.Result(PROP, tier, seed, "model_checking")
-    kp = vlib.build_kp()
+    vlib.build_kp()
     vlib.build_harness("gvh_kp")
     shapes, sexa = model(res, tier)
     t0 = time.time()
@@ -472,7 +563,8 @@ def run(tier, seed):
     res.extra["failing_coordinate_lines"] = sum(r["nfail"] for r in results)
     res.extra["shapes_with_failing_lines"] = sum(1 for r in results if r["nfail"])
     res.extra["roundtrip_runs_refused_by_kp"] = sum(1 for r in results if r["refused"])
-    for s, r in zip(shapes, results):
+    # small inputs first: the replay file of a signature is its smallest instance
+    for s, r in sorted(zip(shapes, results), key=lambda sr: (sr[1]["lines"], len(json.dumps(sr[0])))):
         fam[s["fam"]] = fam.get(s["fam"], 0) + 1
         sizes[size_class(s)] = sizes.get(size_class(s), 0) + 1
         lines += r["lines"]
@@ -489,14 +581,17 @@ def run(tier, seed):
             continue
         res.add_violation({"suite": "kp", "what": "+".join(whats), "def": " ".join(["kp"] + [json.dumps(a) if " " in a else a for a in r["cmd"]]),
                            "shape": s, "fails": r["fails"], "expected": r["expected"], "observed": r["observed"],
-                           "signature": "%s|%s" % ("+".join(whats), size_class(s))})
+                           "signature": "%s|%s|%s" % ("+".join(whats), size_class(s), feature(s))})
     res.distinct_nontrivial = len({shape_key(s) for s in shapes if nontrivial(s)})
     res.exhaustive = True
     res.extra["shapes_per_family"] = fam
     res.extra["shapes_per_size_class"] = sizes
     res.extra["input_lines_processed_by_kp"] = lines
     res.extra["real_batch_size"] = BREAL
-    res.extra["outside_quantifier_more_than_4_columns"] = probe_outside(kp)
+    feats = {}
+    for s in shapes:
+        feats[feature(s)] = feats.get(feature(s), 0) + 1
+    res.extra["shapes_per_feature"] = feats
     res.rule = ("TLC runs the kp machine (reader, batcher, transformer, formatter, exit status) on every shape of the families "
                 "A (blank/white-space/comment lines in every gap relative to the batch boundaries), B (the same lines split over 2-3 "
                 "files and stdin at every position, with and without final newline), C (option sets over --inv, --roundtrip, -z, -t, "
@@ -504,7 +599,13 @@ def run(tier, seed):
                 "column counts, notations, trailing comments), E (refused operations, missing files at every argument position), F (valid "
                 "operation with a domain limit, coordinate lines outside it - the library returns NaN and counts fewer successes than "
                 "tuples - at the first / middle / last position of a batch and in the final partial batch, one item, two items, every "
-                "line, forward, --inv and --roundtrip: still one output line per coordinate line, each the library's result), for the "
+                "line, forward, --inv and --roundtrip: still one output line per coordinate line, each the library's result), G (-d 15, "
+                "400, 65535, 65536, 100000 with every -D and mode on eight lines, exact operations), H (NaN lines under `cart`, which "
+                "reports them in both directions, at the same positions as F: the two passes of --roundtrip report the same number, so "
+                "the run must not be refused and every line must be the residual of its own tuple), S (lines of 5, 6, 7, 9 columns "
+                "alone, in whole batches and in mixtures; columns separated by tabs and by repeated blanks with leading and trailing "
+                "white space; CR LF line ends, with blank lines and comments on both sides of every batch boundary and different "
+                "terminators in two files; files with lone carriage returns: no abnormal end), for the "
                 "coordinate counts k*B + r, k in 0..2, r in {0, 1, B-1}, with B = 3 and B = 4 (quick) / 5 (thorough); the emitted "
                 "prediction must be the same for both B. Every shape is instantiated with B = 25000 and run through the real kp; "
                 "stdout is compared line by line (token by token, -d decimals, -D tokens) with the library's in-process result for "
@@ -519,12 +620,25 @@ def run(tier, seed):
         "a rounding tie may be broken either way (a token within half a unit of the last place of the library's value, with exactly d decimals, is accepted); "
         "for 'geo:in | utm zone=32', the one operation that is not exact in binary64, 2.5 units of the last place are accepted (kp and the harness are two builds of the library)",
         "when the run must end with an error, stdout is not compared (the statement only demands a message and a non-zero status)",
-        "columns are separated by single blanks; sexagesimal notations are D:M:S / D:M with N E S W or a leading minus, values exact in binary64",
-        "more than 4 columns, -D 0 or -D > 4, -o, -e are outside the statement and not judged (the >4-column observations are recorded in the evidence)",
+        "columns are separated by white space (a blank, a tab, several of them; also before the first and after the last column); lines end in "
+        "LF or CR LF; sexagesimal notations are D:M:S / D:M with N E S W or a leading minus, values exact in binary64",
+        "a line with more than 4 columns is a coordinate line (statement: 'for any input text, one output line per coordinate line'): it must get "
+        "exactly one output line of -D numbers at its place and the run must end normally; what the numbers are is not compared, because "
+        "the documentation does not say what becomes of surplus columns (every other line of the same input is compared as usual)",
+        "a file whose lines end in lone carriage returns is covered neither by the documentation nor by the platform's notion of a text line: "
+        "only 'no panic, no signal, no hang' is judged for an input that contains one",
+        "-d beyond 9: only operations that are exact in binary64 are used (" + ", ".join(OK_OPS[i] for i in range(len(OK_OPS)) if SLACK[i] == 0.5) +
+        "); up to 1074 decimals (all a binary64 number has) every token must have exactly -d decimals and be the library's number; beyond that "
+        "the token must be a decimal number denoting the library's number, the count of zeros written is not compared",
+        "-D 0 or -D > 4, -o, -e, tokens that are not numbers are outside the statement and not judged",
         "when the operation is valid but the library fails on some tuples, the documentation does not say how the run ends: the exit status is not "
-        "compared there (a panic still is an alarm); under --roundtrip an error end (message, non-zero status) is admitted as well, and what was "
-        "written before it must be the first lines of the prediction (extra: roundtrip_runs_refused_by_kp)",
-        "family F checks against vacuity that the library's success count equals lines minus the lines the specification marks as failing",
+        "compared there (a panic still is an alarm); under --roundtrip an error end (message, non-zero status) is admitted as well when the two "
+        "passes over a batch report different numbers of transformed tuples (kp's message says so), and what was written before it must be "
+        "the first lines of the prediction (extra: roundtrip_runs_refused_by_kp); when the two passes report the same number the batch must be printed",
+        "families F and H check against vacuity that the library's success count, in the first and under --roundtrip in the second pass, equals "
+        "lines minus the lines the specification marks as failing in that pass",
+        "`cart` (family H) gets longitude/latitude in radians and heights, or geocentric coordinates of points near the surface, depending on the "
+        "direction applied first; at most 6 decimals are compared there (a residual of 1e-9 m is below what two builds of the library must agree on)",
     ]
     return res.finish()
 
@@ -553,7 +667,8 @@ def selftest(seed):
     res = vlib.Result(PROP, "quick", seed, "model_checking")
     shapes, sexa = model(res, "quick")
     cand = [s for s in shapes if s["fam"] == "C" and s["compare"] == "numbers" and s["refstatus"] == "ok"
-            and s["opts"]["d"] >= 3 and not s["opts"]["rt"]][:8]
+            and s["opts"]["d"] >= 3 and not s["opts"]["rt"]
+            and SLACK[s["opx"] - 1] == 0.5][:8]      # a translation: one unit more in, one unit more out, in either direction
     results = execute(cand, sexa, corrupt=True)
     ok = all(any(f["what"] == "line-content" for f in r["fails"]) for r in results)
     print("selftest:", "corruption detected" if ok else "corruption NOT detected")
